@@ -127,8 +127,8 @@ func runC17(c *core.Ctx) {
 		"non-trivial = (pattern list, path) where at least one pattern has a metacharacter; distinct = distinct (list, path) pairs")
 	c.Assume("unescaped '[' and ']' and the empty path are outside the documented grammar and are not generated")
 
-	patAlpha := []string{"a", "b", "/", ".", "*", "**", "?", `\*`, `\?`, "+", "(", "|", "$", "é"}
-	pathAlpha := []string{"a", "b", "/", ".", "*", "+", "\n", "é"}
+	patAlpha := []string{"a", "b", "/", ".", "*", "**", "?", `\*`, `\?`, "+", "(", "|", "$", "é", ","}
+	pathAlpha := []string{"a", "b", "/", ".", "*", "+", "\n", "é", ","}
 	maxPT, maxPL := c.N(3, 4), c.N(4, 5)
 	pats := enumStrings(patAlpha, maxPT)
 	paths := enumStrings(pathAlpha, maxPL)[1:] // non-empty paths
@@ -213,9 +213,13 @@ func runC17(c *core.Ctx) {
 	real := [][]string{
 		{"*.go", "*.md"}, {"**/*.go", "docs/**"}, {"a", "b"}, {"src/*", "?.txt", "**/x"}, {"*.go"}, {".dawn/**", "node_modules"},
 		{"a/b", "a"}, {"", "a"}, {"a", ""}, {"**"}, {"*"}, {"?"},
+		// a comma is an ordinary character of a pattern: one pattern with a comma is not two patterns, in whichever order the
+		// two lists are compiled in one process
+		{"a,b"}, {"a", "b"}, {"a,b"}, {"*.bak,*.orig"}, {"*.bak", "*.orig"}, {"*.bak,*.orig"}, {"x", "y,z"}, {"x,y", "z"}, {"x", "y", "z"}, {"x,y,z"},
 	}
 	realPaths := []string{"foo.go", "foo.go.bak", "x/y.md", "y.md", "a", "b", "ab", "ba", "a/b", "x/a", "docs/x/y", "xdocs/x", "src/a", "src/a/b",
-		"q.txt", "qq.txt", "d/x", "x", ".dawn/build/x", "node_modules", "node_modules/x", "x/node_modules", "a\nb", "\n", "*.go", "a.gox"}
+		"q.txt", "qq.txt", "d/x", "x", ".dawn/build/x", "node_modules", "node_modules/x", "x/node_modules", "a\nb", "\n", "*.go", "a.gox",
+		"a,b", "m.bak", "m.orig", "m.bak,n.orig", "y,z", "x,y", "z", "y", "x,y,z"}
 	for i, l := range real {
 		checkList(fmt.Sprintf("real/%d", i), l, realPaths)
 		c.SampleKey("real", map[string]any{"case": fmt.Sprintf("real/%d", i), "patterns": l})
